@@ -233,7 +233,7 @@ def main(run: Run):
                         "pairs x address widths; CSR/Element/FieldPort/Source/Pin scopes as listed in the module)",
                         "port direction is a fact about amaranth.lib.wiring applied in __init__; no contract within reach proves it for all parameters"]
     run.bounded_notes.append("create() round trip, member tables, connect(): bounded")
-    run_configs(run, __name__, cfgs)
+    run_configs(run, __name__, cfgs, must_accept=True)
     from . import C20_l1
     C20_l1.add_to(run)
     from . import validation
